@@ -9,8 +9,7 @@ from sa.idioms import (guarded, reach_under, path_under, combine, attr_truth,
                        infeasible_edges, is_discarded)
 from sa.project import dotted, walk_local, AnalysisError
 
-EXPLANATION = (
-    "Hook gates decided on CFGs and cross-checked with the documented gate "
+EXPLANATION = (    "Hook gates decided on CFGs and cross-checked with the documented gate "
     "table (docs/source/for-devs/writing-hooks.rst): R1 call_hook's three "
     "outcomes - configured and returning: its result and exactly one "
     "hook_success; raising: `name in ignore_hook_failure` and exactly one "
@@ -26,7 +25,9 @@ EXPLANATION = (
     "signal the watcher sends to a worker goes through that gate; R6 the "
     "default ignore-failure list contains only hooks whose result is never "
     "tested; R7 the per-hook ignore flag is plumbed from the config parser to "
-    "_resolve_hook. Decides these necessary conditions.")
+    "_resolve_hook."
+    "R7 also requires the ignore-failure list to be a fresh per-watcher object. "
+    "Decides these necessary conditions.")
 ASSUMPTIONS = ["hook semantics table parsed from writing-hooks.rst on every run"]
 
 W = 'circus.watcher:Watcher.'
